@@ -31,6 +31,12 @@ impl Label {
 //@item src/lib/util/interpreter_util.rs enum State
 //@item src/lib/util/interpreter_util.rs struct Context
 
+/// the call stack as a sequence of POSITIONS (mathematical integers): the contracts below speak about this view, so they do not
+/// depend on the integer type the interpreter stores return positions in (a narrower type that truncates is refuted, not rejected)
+pub open spec fn stack_view(c: &Context) -> Seq<int> { Seq::new(c.call_stack@.len(), |k: int| c.call_stack@[k] as int) }
+/// the target of a jump outcome, as a position
+pub open spec fn jmp_target(r: Result<State, ParseError>) -> int { match r { Ok(State::JMP(t)) => t as int, _ => -1 } }
+
 /// every jump target / procedure entry / return position is an index of the emitted list or one past it (the same predicate is
 /// ASSUMED of `Interpreter::parse` as a whole in unit `driver`; here it is proved for the productions that produce targets)
 pub open spec fn targets_ok(c: &Context, bound: int) -> bool {
@@ -45,9 +51,9 @@ pub open spec fn targets_ok(c: &Context, bound: int) -> bool {
     ensures
         // CALL continues at the first instruction of the named procedure and remembers the instruction after itself
         old(context).fn_map@.contains_key(n) ==> r == Ok::<State, ParseError>(State::JMP(old(context).fn_map@[n]))
-            && final(context).call_stack@ == old(context).call_stack@.push((current + 1) as usize),
+            && stack_view(final(context)) == stack_view(old(context)).push(current + 1),
         // something that is not a procedure is refused and nothing changes
-        !old(context).fn_map@.contains_key(n) ==> r.is_err() && final(context).call_stack@ == old(context).call_stack@,
+        !old(context).fn_map@.contains_key(n) ==> r.is_err() && stack_view(final(context)) == stack_view(old(context)),
         final(context).fn_map@ == old(context).fn_map@, final(context).label_map@ == old(context).label_map@,
         forall|bound: int| #[trigger] targets_ok(old(context), bound) && current < bound ==> targets_ok(final(context), bound) && (r matches Ok(State::JMP(t)) ==> t <= bound), //# C08 it.targets_stay_inside_the_program
 //@end
@@ -56,9 +62,9 @@ pub open spec fn targets_ok(c: &Context, bound: int) -> bool {
 //@contract
     ensures
         // RET resumes at the most recently remembered return position (LIFO: matching CALL for any nesting)
-        old(context).call_stack@.len() > 0 ==> r == Ok::<State, ParseError>(State::JMP(old(context).call_stack@.last()))
-            && final(context).call_stack@ == old(context).call_stack@.drop_last(),
-        old(context).call_stack@.len() == 0 ==> r.is_err() && final(context).call_stack@ == old(context).call_stack@,
+        old(context).call_stack@.len() > 0 ==> (r matches Ok(State::JMP(_))) && jmp_target(r) == stack_view(old(context)).last()
+            && stack_view(final(context)) == stack_view(old(context)).drop_last(),
+        old(context).call_stack@.len() == 0 ==> r.is_err() && stack_view(final(context)) == stack_view(old(context)),
         final(context).fn_map@ == old(context).fn_map@, final(context).label_map@ == old(context).label_map@,
         forall|bound: int| #[trigger] targets_ok(old(context), bound) ==> targets_ok(final(context), bound) && (r matches Ok(State::JMP(t)) ==> t <= bound), //# C08 it.targets_stay_inside_the_program
 //@end
@@ -181,7 +187,6 @@ pub proof fn lemma_ret_resumes_after_matching_call(stack: Seq<int>, p: int, inne
 
 
 /// the call stack as the lemma sees it
-pub open spec fn stack_view(c: &Context) -> Seq<int> { c.call_stack@.map_values(|x: usize| x as int) }
 
 // ---- bridges: the lemma's step function `run_calls` is not a restatement by hand any more -- each bridge CALLS the real production
 // (its contract, checked above) and proves that its effect on the call stack is exactly one `run_calls` step.
@@ -204,9 +209,8 @@ pub fn bridge_call(current: usize, vm: &mut VM, context: &mut Context, n: String
 pub fn bridge_ret(current: usize, vm: &mut VM, context: &mut Context) -> (r: Result<State, ParseError>)
     requires old(context).call_stack@.len() > 0,
     ensures
-        r == Ok::<State, ParseError>(State::JMP(old(context).call_stack@.last())),
+        (r matches Ok(State::JMP(_))) && jmp_target(r) == stack_view(old(context)).last(),
         stack_view(final(context)) == run_calls(stack_view(old(context)), seq![CallOp::Ret]), //# C08 bridge.ret_is_one_step_of_the_nesting_lemma
-        old(context).call_stack@.last() as int == stack_view(old(context)).last(),
 {
     let ghost s0 = stack_view(context);
     let r = it_ret(current, vm, context, 0, 0);
